@@ -5,6 +5,7 @@ import (
 	"encoding/json"
 	"errors"
 	"fmt"
+	"sort"
 	"strconv"
 	"time"
 
@@ -30,6 +31,8 @@ type Repository struct {
 type qItem struct {
 	Probe   probe.Probe `json:"probe"`
 	Expires time.Time   `json:"expires"`
+	// readyAt is the queue score the item was popped with; it is not part of the stored payload
+	readyAt float64
 }
 
 func New(client *redis.Client, c clockwork.Clock) *Repository {
@@ -124,11 +127,11 @@ func (r *Repository) PopMany(ctx context.Context, count int) ([]probe.Probe, int
 	}
 
 	expired := 0
-	probes := make([]probe.Probe, 0, count)
+	batch := make([]qItem, 0, count)
 
 	// fetch the first n probes from the queue that are ready to be processed
-	for len(probes) < count {
-		items, err := r.pop(ctx, count-len(probes))
+	for len(batch) < count {
+		items, err := r.pop(ctx, count-len(batch))
 		if err != nil {
 			if errors.Is(err, repositories.ErrProbeQueueIsEmpty) {
 				break
@@ -140,8 +143,17 @@ func (r *Repository) PopMany(ctx context.Context, count int) ([]probe.Probe, int
 				expired++
 				continue
 			}
-			probes = append(probes, item.Probe)
+			batch = append(batch, item)
 		}
+	}
+
+	// a later round may have picked up a probe that became available in the meantime
+	// with an earlier ready time than those fetched before; keep the batch ordered by ready time
+	sort.SliceStable(batch, func(i, j int) bool { return batch[i].readyAt < batch[j].readyAt })
+
+	probes := make([]probe.Probe, 0, len(batch))
+	for _, item := range batch {
+		probes = append(probes, item.Probe)
 	}
 
 	return probes, expired, nil
@@ -149,7 +161,7 @@ func (r *Repository) PopMany(ctx context.Context, count int) ([]probe.Probe, int
 
 func (r *Repository) pop(ctx context.Context, count int) ([]qItem, error) {
 	// fetch the first n probes from the queue that are ready to be processed
-	keys, err := r.client.ZRangeArgs(
+	ready, err := r.client.ZRangeArgsWithScores(
 		ctx,
 		redis.ZRangeArgs{
 			Key:     queueKey,
@@ -164,8 +176,13 @@ func (r *Repository) pop(ctx context.Context, count int) ([]qItem, error) {
 	}
 
 	// queue is empty
-	if len(keys) == 0 {
+	if len(ready) == 0 {
 		return nil, repositories.ErrProbeQueueIsEmpty
+	}
+
+	keys := make([]string, len(ready))
+	for i, z := range ready {
+		keys[i], _ = z.Member.(string)
 	}
 
 	// pop the ready-to-process probes from the items set and the queue atomically
@@ -181,13 +198,14 @@ func (r *Repository) pop(ctx context.Context, count int) ([]qItem, error) {
 
 	items := make([]qItem, 0, len(keys))
 	var item qItem
-	for _, val := range result.Val() {
+	for i, val := range result.Val() {
 		if val == nil {
 			continue
 		}
 		if item, err = asQueuedItem(val); err != nil {
 			return nil, fmt.Errorf("failed to unmarshal probe: %w", err)
 		}
+		item.readyAt = ready[i].Score
 		items = append(items, item)
 	}
 
